@@ -56,6 +56,7 @@ func RunStress(sim *vsim.Sim, c StressCase) vrep.Result {
 	}
 	config.Parsed.Feeds = feeds
 	d := NewDriver(80, 24)
+	d.InFlight = sim.InFlight
 	d.CallbackDelay = 300 * time.Microsecond // a terminal write takes time: frames that are not serialised by the lock overlap
 	var err error
 	switch c.Start.Kind {
